@@ -81,8 +81,15 @@ Definition spec_view_untrusted (c : conn) (h : hdrs) : view :=
      v_rawpath := c_escpath c; v_query := c_rawquery c; v_ips := [c_peer c];
      v_hdrs := not_forwarded h |}.
 
-Definition spec_upstream_untrusted (c : conn) : list (string * list string) :=
-  [ (FWD, [http_trim ("for=" ++ c_peer c ++ ";host=" ++ c_host c ++ ";proto=" ++ actual_scheme c)]) ].
+(** the request an upstream receives on behalf of a peer that is not listed: the headers of the request
+    other than the seven, and one Forwarded header made from the connection *)
+Definition spec_upstream_untrusted (c : conn) (h : hdrs) : hdrs :=
+  (not_forwarded h ++
+   [ (FWD, http_trim ("for=" ++ c_peer c ++ ";host=" ++ c_host c ++ ";proto=" ++ actual_scheme c)) ])%list.
+
+(** the forwarding headers at the upstream: for each of the seven names that is present, its values *)
+Definition fwd_projection (uh : hdrs) : list (string * list string) :=
+  flat_map (fun n => if has n uh then [(n, values n uh)] else []) untrusted_header.
 
 (** the client list announced by a trusted proxy: Forwarded (its for= parameters) wins over X-Forwarded-For *)
 Definition spec_forwarded_clients (h : hdrs) : list string :=
@@ -362,20 +369,31 @@ Section WithOracle.
     rewrite !get_not_forwarded by reflexivity. reflexivity.
   Qed.
 
-  Lemma upstream_untrusted c h :
-    upstream_forwarded c (not_forwarded h) = spec_upstream_untrusted c.
+  Lemma del_not_forwarded k h : is_forwarded_name k = true -> del k (not_forwarded h) = not_forwarded h.
   Proof.
-    unfold upstream_forwarded, spec_upstream_untrusted, forwarded_elem.
-    rewrite !get_not_forwarded by reflexivity. reflexivity.
+    intro Hk. unfold del, not_forwarded. rewrite filter_filter. apply filter_ext. intros [k' v]. simpl.
+    destruct (is_forwarded_name k') eqn:E; [reflexivity|]. simpl.
+    destruct (String.eqb k' k) eqn:Ek; [|reflexivity].
+    apply String.eqb_eq in Ek. subst. rewrite Hk in E. discriminate.
+  Qed.
+
+  Lemma cleared_not_forwarded h : upstream_cleared (not_forwarded h) = not_forwarded h.
+  Proof. unfold upstream_cleared. simpl. rewrite !del_not_forwarded by reflexivity. reflexivity. Qed.
+
+  Lemma upstream_untrusted c h :
+    upstream_headers c (not_forwarded h) = spec_upstream_untrusted c h.
+  Proof.
+    unfold upstream_headers, spec_upstream_untrusted, forwarded_elem, set_hdr.
+    rewrite !get_not_forwarded by reflexivity. rewrite cleared_not_forwarded.
+    cbn [nonempty String.eqb negb orb]. rewrite del_not_forwarded by reflexivity. reflexivity.
   Qed.
 
   Theorem untrusted_not_passed_on fixed es peer c h :
     trusted_peer fixed es peer = false ->
     serve parse_uri fixed es peer c h =
       {| s_view := spec_view_untrusted c h;
-         s_up_fwd := spec_upstream_untrusted c;
-         s_up_method := c_method c;
-         s_up_uri := c_escpath c ++ (if nonempty (c_rawquery c) then "?" ++ c_rawquery c else "") |}.
+         s_up_hdrs := spec_upstream_untrusted c h;
+         s_up_method := c_method c |}.
   Proof.
     intro Ht. unfold serve. rewrite Ht, strip_untrusted, view_untrusted, upstream_untrusted. reflexivity.
   Qed.
@@ -386,7 +404,7 @@ Section WithOracle.
     serve parse_uri fixed es peer c h = serve parse_uri fixed es peer c h'.
   Proof.
     intros Ht Hs. rewrite !untrusted_not_passed_on by assumption.
-    unfold spec_view_untrusted. unfold same_except_forwarded in Hs. rewrite Hs. reflexivity.
+    unfold spec_view_untrusted, spec_upstream_untrusted. unfold same_except_forwarded in Hs. rewrite Hs. reflexivity.
   Qed.
 
   (* ---------------------------------------------------------------- trusted: exact overrides *)
@@ -520,9 +538,8 @@ Theorem not_passed_on_gen parse_uri fixed es peer c h :
     {| s_view := {| v_method := c_method c; v_scheme := if c_tls c then "https" else "http";
                     v_host := c_host c; v_rawpath := c_escpath c; v_query := c_rawquery c;
                     v_ips := [c_peer c]; v_hdrs := not_forwarded h |};
-       s_up_fwd := spec_upstream_untrusted c;
-       s_up_method := c_method c;
-       s_up_uri := (c_escpath c ++ (if nonempty (c_rawquery c) then "?" ++ c_rawquery c else ""))%string |} /\
+       s_up_hdrs := spec_upstream_untrusted c h;
+       s_up_method := c_method c |} /\
   forall k, In k untrusted_header -> has k (v_hdrs (s_view (serve parse_uri fixed es peer c h))) = false.
 Proof.
   intros Hes Hp Hl Hg.
@@ -546,9 +563,8 @@ Theorem not_passed_on_fixed parse_uri es peer c h :
     {| s_view := {| v_method := c_method c; v_scheme := if c_tls c then "https" else "http";
                     v_host := c_host c; v_rawpath := c_escpath c; v_query := c_rawquery c;
                     v_ips := [c_peer c]; v_hdrs := not_forwarded h |};
-       s_up_fwd := spec_upstream_untrusted c;
-       s_up_method := c_method c;
-       s_up_uri := (c_escpath c ++ (if nonempty (c_rawquery c) then "?" ++ c_rawquery c else ""))%string |} /\
+       s_up_hdrs := spec_upstream_untrusted c h;
+       s_up_method := c_method c |} /\
   forall k, In k untrusted_header -> has k (v_hdrs (s_view (serve parse_uri true es peer c h))) = false.
 Proof. intros Hes Hp Hl. apply not_passed_on_gen; try assumption. discriminate. Qed.
 
@@ -596,4 +612,96 @@ Proof.
   split; [repeat constructor; simpl; auto|]. split; [left; reflexivity|].
   split; [intro L; apply listedb_listed in L; vm_compute in L; discriminate|].
   repeat split; reflexivity.
+Qed.
+
+(* ------------------------------------------------------------------ the upstream request, any peer *)
+
+(** the forwarding information heimdall composes for the upstream from the request the middleware left *)
+Definition composed_forwarding (c : conn) (h : hdrs) : hdrs :=
+  let xfh := get XFH h in
+  let xfp := get XFP h in
+  let xff := get XFF h in
+  let fw := get FWD h in
+  if nonempty xff || nonempty xfp || nonempty xfh then
+    [ (XFF, http_trim (if nonempty xff then xff ++ ", " ++ c_peer c else c_peer c));
+      (XFP, http_trim (if nonempty xfp then xfp else actual_scheme c));
+      (XFH, http_trim (if nonempty xfh then xfh else c_host c)) ]
+  else
+    [ (FWD, http_trim (if nonempty fw then fw ++ ", " ++ forwarded_elem c else forwarded_elem c)) ].
+
+Lemma values_del_same k h : values k (del k h) = [].
+Proof.
+  unfold values, del. rewrite filter_filter.
+  induction h as [|[k' v] h IH]; simpl; [reflexivity|].
+  destruct (String.eqb k' k); simpl; exact IH.
+Qed.
+
+Lemma values_del_other k k' h : String.eqb k k' = false -> values k (del k' h) = values k h.
+Proof.
+  intro E. unfold values, del. rewrite filter_filter. f_equal. apply filter_ext. intros [k0 v]. simpl.
+  destruct (String.eqb k0 k) eqn:E0; [|apply andb_false_r].
+  apply String.eqb_eq in E0. subst. rewrite E. reflexivity.
+Qed.
+
+Lemma values_app k (h1 h2 : hdrs) : values k (h1 ++ h2)%list = (values k h1 ++ values k h2)%list.
+Proof. unfold values. rewrite filter_app, map_app. reflexivity. Qed.
+
+Lemma values_del k k' h : values k (del k' h) = if String.eqb k k' then [] else values k h.
+Proof.
+  destruct (String.eqb k k') eqn:E.
+  - apply String.eqb_eq in E. subst. apply values_del_same.
+  - apply values_del_other. exact E.
+Qed.
+
+Lemma values_set k k' v h : values k (set_hdr k' v h) = if String.eqb k k' then [v] else values k h.
+Proof.
+  unfold set_hdr. rewrite values_app, values_del. unfold values at 2. simpl. rewrite (String.eqb_sym k' k).
+  destruct (String.eqb k k'); simpl; [reflexivity|apply app_nil_r].
+Qed.
+
+Lemma values_cleared k h : is_forwarded_name k = true -> values k (upstream_cleared h) = [].
+Proof.
+  intro Hk. unfold upstream_cleared. cbn [fold_left]. rewrite !values_del.
+  unfold is_forwarded_name, untrusted_header in Hk. cbn [existsb] in Hk.
+  destruct (String.eqb k XFPath); [reflexivity|]. destruct (String.eqb k XFU); [reflexivity|].
+  destruct (String.eqb k XFM); [reflexivity|]. destruct (String.eqb k XFP); [reflexivity|].
+  destruct (String.eqb k XFH); [reflexivity|]. destruct (String.eqb k XFF); [reflexivity|].
+  destruct (String.eqb k FWD); [reflexivity|]. discriminate.
+Qed.
+
+(** whoever the peer is: at the upstream the seven names carry what heimdall composed and nothing else;
+    X-Forwarded-Method/-Uri/-Path never arrive *)
+Theorem upstream_forwarding_is_composed c h k :
+  is_forwarded_name k = true ->
+  values k (upstream_headers c h) = values k (composed_forwarding c h).
+Proof.
+  intro Hk. unfold upstream_headers, composed_forwarding.
+  destruct (nonempty (get XFF h) || nonempty (get XFP h) || nonempty (get XFH h)).
+  - rewrite !values_set, (values_cleared k h Hk). unfold values. cbn [filter map fst snd].
+    rewrite !(String.eqb_sym _ k).
+    destruct (String.eqb k XFH) eqn:E1; destruct (String.eqb k XFP) eqn:E2; destruct (String.eqb k XFF) eqn:E3;
+      try reflexivity;
+      repeat match goal with H : String.eqb _ _ = true |- _ => apply String.eqb_eq in H end; subst; discriminate.
+  - rewrite !values_set, (values_cleared k h Hk). unfold values. cbn [filter map fst snd].
+    rewrite !(String.eqb_sym _ k). destruct (String.eqb k FWD); reflexivity.
+Qed.
+
+(* ------------------------------------------------------------------ IPNet.Contains never indexes out of range *)
+
+(** for what ParseCIDR returns, networkNumberAndMask succeeds (the nil branch of Contains is not taken) and
+    the loop of Contains stays inside the mask *)
+Theorem contains_never_panics a m p :
+  wf_entry (ECidr a m) ->
+  (exists nn mk, network_number_and_mask a m = Some (nn, mk)) /\ contains_panics a m p = false.
+Proof.
+  intro Hw. assert (Hex : exists nn mk, network_number_and_mask a m = Some (nn, mk)).
+  { unfold network_number_and_mask. destruct Hw as [[Ha Hm]|[Ha Hm]].
+    - rewrite (to4_len4 a Ha), Hm, Ha. simpl. eauto.
+    - rewrite (to4_len16 a Ha). destruct (is_v4 a).
+      + rewrite Hm. destruct (Nat.eqb (length (skipn 12 a)) 4); simpl; eauto.
+      + rewrite Ha, Hm. cbn. rewrite Ha. cbn. eexists _, _. reflexivity. }
+  split; [exact Hex|]. destruct Hex as (nn & mk & E). unfold contains_panics. rewrite E.
+  apply network_number_and_mask_lengths in E.
+  cbv zeta. match goal with |- (?x =? ?y)%nat && _ = false => destruct (Nat.eqb x y) eqn:El end; [|reflexivity].
+  apply Nat.eqb_eq in El. cbn [andb]. apply negb_false_iff. apply Nat.leb_le. lia.
 Qed.
